@@ -259,6 +259,7 @@ def main(a):
     for f in findings:
         if f["id"] in cell_known:
             v.known_finding(f["what"] + " [%d cases]" % cell_known[f["id"]])
+    v.replay_witnesses(exe, findings, already=set(cell_known))
     v.coverage.update({
         "evaluations": len(jobs), "distinct_nontrivial": len(nontrivial), "distribution": dist,
         "rule": "module sets of 1-5 modules in nested directories (dotted paths), 1-5 items each (functions with a static call "
